@@ -555,6 +555,15 @@ def judge_curve(ctx, rec, res, g, name):
         if any(k >= (1 << 255) for k in ks[:nmin]) or not all(on_curve(p) for p in pts[:nmin]):
             return SKIP
         return expect_point(res, rec, g, msm_expected(g, [pt(p)[1] for p in pts[:nmin]], ks[:nmin]))
+    if name == "msm_pre256x":
+        # table built (by the library) for a LONGER point list; points passed must be a prefix of it
+        tp, pts, ks = A[0][1], A[1][1], [x[1] for x in A[2][1]]
+        nmin = min(len(pts), len(ks))
+        if len(pts) > len(tp) or any(a_ != b_ for a_, b_ in zip(pts, tp)):
+            return SKIP
+        if any(k >= (1 << 255) for k in ks[:nmin]) or not all(on_curve(p) for p in tp):
+            return SKIP
+        return expect_point(res, rec, g, msm_expected(g, [pt(p)[1] for p in pts[:nmin]], ks[:nmin]))
     if name == "msm_prog":
         return judge_msm_prog(ctx, rec, res, g)
     if name == "pip_window":
@@ -568,7 +577,8 @@ def judge_curve(ctx, rec, res, g, name):
         return expect_val(res, rec, ("t", in_sub(g, pt(A[0])[1])))
     if name in ("enc_c", "enc_u", "enc_c_from", "enc_u_from"):
         P = pt(A[0])[1]
-        if not canonical_affine(A[0]) or not in_sub(g, P):
+        produced = isinstance(rec.srcs[0], int)      # a value the library itself handed out (e.g. a negated identity)
+        if (not canonical_affine(A[0]) and not produced) or not in_sub(g, P):
             res.info["encode_out_of_domain_observed"] += 1
             return SKIP
         return expect_val(res, rec, ("b", EN.encode(g, P, name.startswith("enc_c"))))
@@ -736,7 +746,7 @@ def judge_misc(ctx, rec, res, op):
     raise KeyError("no spec for " + op)
 
 
-def ser_bytes(v, compressed):
+def ser_bytes(v, compressed, produced=False):
     """model serialisation of a typed value, or None when the value is outside the property's domain"""
     ty, p = v
     if ty == "r":
@@ -745,7 +755,7 @@ def ser_bytes(v, compressed):
         return EN.fq12_bytes(p)
     if ty in ("p1", "a1", "p2", "a2"):
         g, P = pt(v)
-        if ty[0] == "a" and not canonical_affine(v):
+        if ty[0] == "a" and not canonical_affine(v) and not produced:
             return None
         if not in_sub(g, P):
             return None
@@ -755,7 +765,7 @@ def ser_bytes(v, compressed):
 
 def judge_ser(ctx, rec, res):
     A = rec.args
-    want = ser_bytes(A[0], A[1][1])
+    want = ser_bytes(A[0], A[1][1], produced=isinstance(rec.srcs[0], int))
     if want is None:
         return SKIP
     fail = A[3][1]
